@@ -8,7 +8,9 @@ the f64 bit pattern the `toml` crate / rustc give it; Python's float() is correc
 the best lists with their names resolved (unsorted: sorting and thresholds are part of the model),
 and the layered fractions configuration resolved as `build_fractions_config` does.
 
-Usage: gen_units.py <repo> [out.lean]; prints `changed` or `unchanged`.
+Usage: gen_units.py <repo> [out.lean [units.toml [namespace]]]; prints `changed` or `unchanged`.
+(paths relative to the verif checkout; default: <repo>/units.toml -> lean/CookModel/Gen/Units.lean,
+namespace Cook.Gen)
 Exit 3 if the file uses something this translator does not understand (e.g. `extend`).
 """
 import os, re, struct, sys, tomllib
@@ -16,7 +18,9 @@ from fractions import Fraction
 
 REPO = sys.argv[1] if len(sys.argv) > 1 else "/repo"
 ROOT = os.path.dirname(os.path.dirname(os.path.abspath(__file__)))
-OUT = sys.argv[2] if len(sys.argv) > 2 else os.path.join(ROOT, "lean/CookModel/Gen/Units.lean")
+OUT = os.path.join(ROOT, sys.argv[2]) if len(sys.argv) > 2 else os.path.join(ROOT, "lean/CookModel/Gen/Units.lean")
+TOML = os.path.join(ROOT, sys.argv[3]) if len(sys.argv) > 3 else os.path.join(REPO, "units.toml")
+NS = sys.argv[4] if len(sys.argv) > 4 else "Gen"
 
 QUANTITIES = ["volume", "mass", "length", "temperature", "time"]   # enum order of PhysicalQuantity
 SIPREFIX = ["kilo", "hecto", "deca", "deci", "centi", "milli"]      # enum order of SIPrefix
@@ -109,7 +113,7 @@ DEN_LO, DEN_HI = int(m.group(1)), int(m.group(2))
 
 # ---- the file
 try:
-    data = tomllib.load(open(os.path.join(REPO, "units.toml"), "rb"), parse_float=Dec)
+    data = tomllib.load(open(TOML, "rb"), parse_float=Dec)
 except Exception as e:  # noqa: BLE001
     fail(f"units.toml does not parse: {e}")
 known_top = {"default_system", "si", "fractions", "extend", "quantity"}
@@ -311,9 +315,9 @@ def opt_cfg(h):
 
 
 out = ["import CookModel.Num.Units",
-       "/- GENERATED by /verif/translators/gen_units.py from /repo/units.toml (+ the SI prefix ratios of",
+       f"/- GENERATED by /verif/translators/gen_units.py from {'/repo/units.toml' if len(sys.argv) <= 3 else sys.argv[3]} (+ the SI prefix ratios of",
        "   src/convert/units_file.rs and FractionsConfig::default of src/convert/mod.rs). Do not edit. -/",
-       "namespace Cook.Gen"]
+       f"namespace Cook.{NS}"]
 for uid, u in enumerate(units):
     out.append(f"def unit{uid} : Unit Const := {{ id := {uid}, names := {strs(u['names'])}, symbols := {strs(u['symbols'])}, "
                f"aliases := {strs(u['aliases'])}, ratio := {const(u['ratio'], u['ratio_f'])}, "
@@ -343,7 +347,7 @@ out.append("/-- `FractionsConfig::default()` -/")
 out.append(f"def defaultCfg : FracCfg Const := {cfg_lean(define({}))}")
 out.append("def bundledDesc : ConverterDesc Const :=")
 out.append("  { allUnits := allUnits, best := bestSpec, fractions := fractions, defaultSystem := defaultSystem }")
-out.append("end Cook.Gen")
+out.append(f"end Cook.{NS}")
 text = "\n".join(out) + "\n"
 try:
     old = open(OUT).read()
